@@ -26,30 +26,38 @@ TRUSTED = ["model: lean/Srctools/Model/B64.lean (exact binary64: rne, +,-,*,/, f
            "source site from Gen.Angles)",
            "trigonometry (math.sin/cos/atan2/degrees, matrix products) is not modelled: the values returned by math.degrees "
            "are recorded from outside and given to the model as raw inputs of MatrixBase._to_angle",
-           "C05_norm_range is proved for every RoundingSystem (monotone rounding that fixes 0 and 360) and, separately, for the "
-           "concrete binary64 model; that CPython's float arithmetic is this model is established by the bit-exact "
-           "comparison of this run only",
+           "C05_norm_range is proved for every RoundingSystem (monotone rounding that fixes 0 and 360) and, independently, for the "
+           "concrete binary64 model (C05_norm_range_b64, by the definition of its rounding); that CPython's float arithmetic "
+           "is this model is established by the bit-exact comparison of this run only. The concrete rne is NOT proved to be a "
+           "RoundingSystem instance (monotonicity across binades is not proved); the two theorems are independent",
            "Gen.Frozen's reading of the source (an object bound to `X.__new__(X)`, to a constructor call with float arguments, or "
-           "returned by a factory is new; `self` of a @final mutable class is never a frozen object) is the translator's; the "
-           "frame theorem C05_frozen is about the heap model; the program fuzz checks every live frozen object after every step",
+           "returned by a factory is new; `self` of a @final mutable class is never a frozen object) is the translator's: it is the "
+           "hypothesis `Reading` of C05_frozen; the program fuzz checks every live frozen object after every step",
            "_math.pyx (Cython twin) is not covered"]
 NOT_MODELLED = ["_math.pyx", "sin/cos/atan2/sqrt/hypot and the matrix entries (oracle inputs)", "Matrix objects in the state machine "
-                "(implementation-side frame and frozen checks only)", "format specs other than the default in __format__",
+                "(implementation-side frame and frozen checks only; heap-level theorem C05_frozen covers their store sites)",
+                "format specs other than the default in __format__",
                 "float() literals with underscores, non-ASCII white space in parse_vec_str",
                 "non-finite values: overflow of a product to inf gives nan fields (open finding overflow-nonfinite)"]
 ASSUMPTIONS = ["inputs are finite doubles; products formed by `*` stay finite (excluded class of finding overflow-nonfinite)",
-               "text round trip through float(): |x| outside [2^32, 2^33) (excluded class of finding parse-back-binade32)"]
-LEVEL_TEXT = ("Lean theorems: C05_norm_range (0 <= x % 360 % 360 < 360 for every finite x, for every rounding system that is monotone "
-              "and fixes 0 and 360, and for the concrete binary64 model), C05_mod1_not_enough (one modulo can return exactly 360.0), "
-              "C05_angle_inv (every history of the Angle state machine keeps all fields in [0,360) provided every source write site "
-              "is norm2/copyField/zero, which C05_gen_angles_ok decides on the sites regenerated from math.py), C05_frozen (no store "
-              "whose origin Gen.Frozen accepts can change a published frozen object; C05_gen_frozen_ok decides the 250-odd store "
-              "sites), C05_text_shape / C05_text_close for format_float. The binary64 model, format_float, float(str) and the "
-              "state machine are compared bit for bit with CPython and the implementation on every run.")
+               "never '-0': outside the class negRoundsToZero (negative values that round to zero at 6 places; open finding "
+               "text-minus-zero, pinned by the repo's tests)",
+               "text round trip through float(): the decimal value of the text is within 5e-7 (proved); the re-parsed double is within "
+               "5e-7 + ulp/2, which exceeds 5e-7 visibly only for 2^32 <= |x| < 2^33 (open finding parse-back-binade32)"]
+LEVEL_TEXT = ("Lean theorems: C05_norm_range (0 <= x % 360 % 360 < 360 for every rounding system that is monotone and fixes 0 and 360) and "
+              "C05_norm_range_b64 (the same for the exact binary64 bit model); C05_mod1_not_enough (-1e-14 % 360.0 == 360.0); "
+              "C05_angle_inv (any history of the Angle state machine keeps all fields in [0,360) provided every source write site is "
+              "norm2/copyField/zero — decided by C05_gen_angles_ok on the sites regenerated from math.py; instantiated for binary64 "
+              "and for every rounding system) and C05_angle_inv_needs_norm2; C05_frame_machine / C05_frozen_machine (an API call "
+              "changes at most its mutable target; frozen objects never) and C05_frozen (heap frame theorem for the store sites "
+              "accepted by C05_gen_frozen_ok); C05_text_shape(_bits), C05_text_minus_zero_iff (+ witness, partial, angle "
+              "corollary), C05_text_close(_bits). The binary64 model, format_float, float(str), parse_vec_str and the state "
+              "machine are compared bit for bit with CPython / the implementation on every run.")
 LEVEL_NOTE = ("Trusted: Lean kernel + propext/Classical.choice/Quot.sound; tools/gen_angles.py, tools/gen_frozen.py; the harness. "
               "Trigonometry is an oracle (not modelled); matrices are checked on the implementation only; _math.pyx not covered. "
-              "Two open findings outside the proved domain: overflow to nan, parse-back in [2^32,2^33).")
-TECHNIQUE = "Lean 4 proof (abstract rounding system + exact binary64 bit model, invariant by induction over histories, frame theorem) + translator + bit-exact differential correspondence"
+              "Three open findings outside the proved domain: '-0' for small negative vector components (pinned by the repo's "
+              "tests), overflow to nan, re-parsed double in [2^32,2^33).")
+TECHNIQUE = "Lean 4 proof (abstract rounding system + exact binary64 bit model, invariant by induction over histories, frame theorems, digit-level text proofs) + translator + bit-exact differential correspondence"
 DESIGN_REF = "DESIGN.md section 6, C05"
 
 
@@ -98,11 +106,13 @@ def impl_scalar(smath, x):
     a = smath.Angle(x, 0.0, 0.0)
     b = smath.Angle()
     b.yaw = x
+    b.pitch = x
+    b.roll = x
     c = smath.FrozenAngle(0.0, 0.0, x)
     d = smath.Angle()
     d['roll'] = x
     t = smath.format_float(x)
-    return {'norm': [bits(a.pitch), bits(b.yaw), bits(c.roll), bits(d.roll)], 'fmt': t}
+    return {'norm': [bits(a.pitch), bits(b.yaw), bits(c.roll), bits(d.roll), bits(b.pitch), bits(b.roll)], 'fmt': t}
 
 
 def _wit(ctx, key, what, inp, per_key=3):
@@ -133,6 +143,13 @@ def check_scalar(ctx, x, r):
         _wit(ctx, key, f'format_float({x!r}): {what}', case)
 
 
+def _tofloat(t):
+    try:
+        return float(t)
+    except ValueError:
+        return None
+
+
 def _fmod(a, b):
     try:
         return math.fmod(a, b)
@@ -158,7 +175,7 @@ def correspond(ctx, drivers):
         r = impl_scalar(smath, x)
         impl.append(r)
         check_scalar(ctx, x, r)
-        ctx.case({'x': bits(x)}, nontrivial=(x < 0 or x >= 360 or float(r['fmt']) != x), sample_every=7919)
+        ctx.case({'x': bits(x)}, nontrivial=(x < 0 or x >= 360 or _tofloat(r['fmt']) != x), sample_every=7919)
     xb = [bits(x) for x in xs]
     texts = [r['fmt'] for r in impl]
     extra_txt = []
